@@ -1,4 +1,5 @@
 import Clikit.Lemmas.Spinner
+import Clikit.Model.SpinnerBuilt
 /-!
 # C19 - the automatic progress indicator is well-behaved under every interleaving
 
@@ -538,5 +539,102 @@ example : ∀ e l2, (mrun manCfg manOps MSt.init).out = e :: l2 → e.kind = .ad
 
 /-- `frame_shape`: its only hypothesis -/
 example : hasValuesB manCfg = true := by decide
+
+/-! ## What the indicator is built on
+
+`Model/SpinnerBuilt.lean`: an `Output`, or an `IO` whose standard output and error output are configured
+individually.  The frames are drawn on the error output of an I/O, and the format the component chooses when
+none is given is the one for THAT output. -/
+section Built
+
+/-- the two formats of the model are the literals `NORMAL` / `NORMAL_NO_ANSI` of the source -/
+theorem formats_from_source :
+    fmtText normalFmt = Gen.C19.NORMAL ∧ fmtText plainFmt = Gen.C19.NORMAL_NO_ANSI := by decide
+
+/-- **An indicator built on an I/O is the indicator built on the error output of that I/O** - whatever format
+is or is not given.  Nothing depends on the standard output. -/
+theorem built_on_io_eq_error_output (std err : Caps) (fmt : Option (List Seg)) (base : Cfg) :
+    cfgBuilt (.io std err) fmt base = cfgBuilt (.output err) fmt base := rfl
+
+/-- two I/Os with the same error output give the same indicator, however their standard outputs differ (ANSI
+capability, verbosity, quiet) -/
+theorem built_ignores_standard_output (std std' err : Caps) (fmt : Option (List Seg)) (base : Cfg) :
+    cfgBuilt (.io std err) fmt base = cfgBuilt (.io std' err) fmt base := rfl
+
+/-- the configuration of an indicator that was given no format: the way of drawing and the format are both
+those of the output drawn on -/
+theorem built_cfg (b : Built) (base cfg : Cfg) (h : cfgBuilt b none base = some cfg) :
+    cfg = { base with ansi := b.drawn.ansi, fmt := if b.drawn.ansi then normalFmt else plainFmt } ∧
+    b.drawn.verbosity = 0 ∧ b.drawn.quiet = false := by
+  unfold cfgBuilt at h
+  cases hq : b.drawn.quiet with
+  | true => simp [hq] at h
+  | false =>
+    simp only [hq, Bool.false_eq_true, if_false, bestFormat] at h
+    by_cases hv : b.drawn.verbosity ≥ 1
+    · simp [hv] at h
+    · simp only [hv, if_false, Option.map_some, Option.some.injEq] at h
+      exact ⟨h.symm, by omega, rfl⟩
+
+theorem render_normalFmt (v m : Str) : render normalFmt v m = [' '] ++ v ++ [' '] ++ m := by
+  simp [render, renderSeg, normalFmt]
+
+theorem render_plainFmt (v m : Str) : render plainFmt v m = [' '] ++ m := by
+  simp [render, renderSeg, plainFmt]
+
+/-- what one frame of such an indicator is on the stream: on an ANSI-capable output the line is erased and
+` value message` drawn in its place; on a plain output ` message` is a line of its own -/
+def builtFrame (b : Built) (v m : Str) : Str :=
+  if b.drawn.ansi then crEl ++ ([' '] ++ v ++ [' '] ++ m) else [' '] ++ m ++ nl
+
+theorem frameBytes_built (b : Built) (base cfg : Cfg) (h : cfgBuilt b none base = some cfg) (v m : Str) :
+    frameBytes cfg (render cfg.fmt v m) = builtFrame b v m := by
+  obtain ⟨rfl, -, -⟩ := built_cfg b base cfg h
+  unfold frameBytes builtFrame
+  cases b.drawn.ansi <;> simp [render_normalFmt, render_plainFmt]
+
+/-- **Frame shape, no format given (manual mode).**  Built on an Output or on an I/O, whatever the standard
+output of that I/O is: each call writes only the final newline and whole frames, and a frame is - for the
+output it is DRAWN on - an indicator value followed by the current message (ANSI-capable: redrawn in place), or
+the current message on a line of its own (plain). -/
+theorem built_frame_shape (b : Built) (base cfg : Cfg) (h : cfgBuilt b none base = some cfg)
+    (hv : 0 < base.values.length) (c : MSt) (op : MOp) :
+    ∃ new, (mstep cfg c op).1.out = new ++ c.out ∧
+      ∀ e ∈ new, (e.kind = .newline ∧ e.bytes = nl) ∨
+        ∃ v ∈ base.values, e.bytes = builtFrame b v (mstep cfg c op).1.message := by
+  have hvals : cfg.values = base.values := by rw [(built_cfg b base cfg h).1]
+  obtain ⟨new, h1, h2, -⟩ := frame_shape cfg (by rw [hvals]; exact hv) c op
+  refine ⟨new, h1, fun e he => ?_⟩
+  rcases h2 e he with hn | ⟨v, hvm, hb⟩
+  · exact .inl hn
+  · exact .inr ⟨v, hvals ▸ hvm, by rw [hb, frameBytes_built b base cfg h]⟩
+
+/-- **Frame shape, no format given (automatic mode), under every schedule.** -/
+theorem built_frame_shape_auto (b : Built) (base cfg : Cfg) (h : cfgBuilt b none base = some cfg)
+    (hv : 0 < base.values.length) (s : Schedule) :
+    ∀ w ∈ trace cfg s, w.2 = nl ∨ ∃ v ∈ base.values, ∃ m ∈ msgs cfg, w.2 = builtFrame b v m := by
+  have hvals : cfg.values = base.values := by rw [(built_cfg b base cfg h).1]
+  intro w hw
+  rcases frame_shape_auto cfg (by rw [hvals]; exact hv) s w hw with hn | ⟨v, hvm, m, hm, hb⟩
+  · exact .inl hn
+  · exact .inr ⟨v, hvals ▸ hvm, m, hm, by rw [hb, frameBytes_built b base cfg h]⟩
+
+/-- the variant that asks the STANDARD output of an I/O which format to use while it draws on the error output
+is a different component as soon as the two outputs differ: with a plain standard output and an ANSI-capable
+error output it redraws the line in place WITHOUT an indicator value -/
+theorem format_of_standard_output_differs :
+    let std : Caps := ⟨false, 0, false⟩
+    let err : Caps := ⟨true, 0, false⟩
+    bestFormat std ≠ bestFormat (Built.io std err).drawn ∧
+    (∀ v m, frameBytes { Counter.cfg1 [] with ansi := err.ansi, fmt := plainFmt } (render plainFmt v m) = crEl ++ ([' '] ++ m)) := by
+  refine ⟨by decide, fun v m => ?_⟩
+  simp [frameBytes, render_plainFmt]
+
+/-- non-vacuity: `prog > out.txt` on a terminal -/
+example : (cfgBuilt (.io ⟨false, 2, true⟩ ⟨true, 0, false⟩) none (Counter.cfg1 [])).map (fun c => (c.ansi, c.fmt)) =
+    some (true, normalFmt) := by decide
+example : cfgBuilt (.io ⟨true, 0, false⟩ ⟨true, 1, false⟩) none (Counter.cfg1 []) = none := by decide
+
+end Built
 
 end Clikit.Props.C19
